@@ -161,7 +161,12 @@ func runC01(cfg c01cfg, choices []int) (c01trace, []int) {
 	}
 	if tr.Err == "" {
 		sn := res.Snapshot()
-		tr.Ev = append(tr.Ev, []any{"end", "", int(sn.SuccessfulIterationDurations.Count), int(sn.FailedIterationDurations.Count)})
+		// every Record carries duration 1 ns: at quiescence the lifetime figures must be exactly 1/1/1
+		fig := func(d progress.IterationDurationsSnapshot) bool {
+			return d.Count == 0 || (d.Average == 1 && d.Min == 1 && d.Max == 1)
+		}
+		tr.Ev = append(tr.Ev, []any{"end", "", int(sn.SuccessfulIterationDurations.Count), int(sn.FailedIterationDurations.Count),
+			fig(sn.SuccessfulIterationDurations) && fig(sn.FailedIterationDurations)})
 	} else {
 		fmt.Println("c01 schedule error:", tr.Err, choices)
 		for _, e := range s.Log {
